@@ -4,11 +4,13 @@
 // For every function of service.go / orgvarlinkservice.go with receiver *Service: every read and
 // write of a Service field, every call of another Service method and every `go s.m(...)`, in source
 // order, each with the state of s.mutex at that point.  The lock state comes from a structured walk:
-//   s.mutex.Lock() ... s.mutex.Unlock()      held in between
-//   defer s.mutex.Unlock()                   held up to every return
-//   a branch that ends in return / continue / break / panic does not influence the state after it
-//   branches that fall through with different states give `unknown`
-//   loops are walked to a fixpoint (state at the loop head = join of entry and back edge)
+//
+//	s.mutex.Lock() ... s.mutex.Unlock()      held in between
+//	defer s.mutex.Unlock()                   held up to every return
+//	a branch that ends in return / continue / break / panic does not influence the state after it
+//	branches that fall through with different states give `unknown`
+//	loops are walked to a fixpoint (state at the loop head = join of entry and back edge)
+//
 // A `defer func() { ... }()` body is walked with the mutex free and its events are placed after the
 // events of the function body (that is when it runs); `go func() {...}()` bodies likewise start free.
 // Not tracked (trusted, cross-checked by the race detector runs): aliasing of *Service, accesses
